@@ -465,7 +465,7 @@ func childC10Loops(raw json.RawMessage) {
 	join := func() {
 		cfg := c10Config("g")
 		cfg.Dcp.Group.Membership.Config["heartbeatInterval"] = "40ms"
-		cfg.Dcp.Group.Membership.Config["heartbeatToleranceDuration"] = "1500ms" // far above any scheduling stall of the harness
+		cfg.Dcp.Group.Membership.Config["heartbeatToleranceDuration"] = "4s" // far above any stall of the machine (scheduling, sockets) seen so far
 		cfg.Dcp.Group.Membership.Config["monitorInterval"] = "40ms"
 		ag, err := node.NewAgent()
 		must(err)
@@ -495,7 +495,7 @@ func childC10Loops(raw json.RawMessage) {
 	settle := func(what string) {
 		start := time.Now()
 		ms := int64(-1)
-		for time.Since(start) < 8*time.Second {
+		for time.Since(start) < 14*time.Second {
 			ok := true
 			for rank, i := range alive {
 				if info(i) != [2]int{rank + 1, len(alive)} {
@@ -945,8 +945,8 @@ func runC10(c *Ctx) {
 	})
 	for i, r := range lres {
 		rep := map[string]interface{}{"seed": lseeds[i], "how": "vh child c10loops with this seed"}
-		if lagMs[i] >= 700 {
-			// the machine kept the process from running for most of the heart-beat tolerance (1.5 s): not driven
+		if lagMs[i] >= 1500 {
+			// the machine kept the process from running for a large part of the heart-beat tolerance (4 s): not driven
 			c.Count("A':discarded-stalled-process")
 			c.Note("c10loops seed %d: the process was stalled for %d ms; discarded", lseeds[i], lagMs[i])
 			continue
@@ -960,7 +960,7 @@ func runC10(c *Ctx) {
 		for _, ph := range r.Phases {
 			c.Count("A':phase")
 			if ph.Ms < 0 {
-				c.Violate("not-converged", fmt.Sprintf("after '%s' the live instances %v held %v eight seconds later (heart-beat 40 ms, tolerance 1.5 s, monitor 40 ms)", ph.What, ph.Alive, ph.Infos), rep)
+				c.Violate("not-converged", fmt.Sprintf("after '%s' the live instances %v held %v fourteen seconds later (heart-beat 40 ms, tolerance 4 s, monitor 40 ms)", ph.What, ph.Alive, ph.Infos), rep)
 			}
 		}
 		for m, ps := range r.Pubs {
